@@ -112,6 +112,11 @@ def rule_wire(ctx):
                 return None
             s_ = src(v)
             if how == "direct":
+                # a timeout copied from the control stream is the control stream's own configured one
+                m_ = {f"{conn}.command_connection.read_timeout": ctl.get("read_timeout") or ctl.get("timeout"),
+                      f"{conn}.command_connection.write_timeout": ctl.get("write_timeout") or ctl.get("timeout")}
+                if s_ in m_:
+                    return m_[s_]
                 return s_.split(".")[-1] if s_.startswith(conn + ".") else s_
             # inside a helper of the control stream: self.read_timeout / self.write_timeout / self.timeout are the control stream's
             m = {"self.read_timeout": ctl.get("read_timeout") or ctl.get("timeout"), "self.write_timeout": ctl.get("write_timeout") or ctl.get("timeout")}
